@@ -231,6 +231,34 @@ func init() {
 				evals += 2
 			}
 		}
+		// every single-byte substitution and insertion inside every marker: exactly the
+		// ASCII case variants of a marker are markers, nothing else
+		var subs [][]byte
+		for _, m := range c20Markers {
+			for pos := 0; pos < len(m); pos++ {
+				for b := 0; b < 256; b++ {
+					sub := append([]byte("ab"), m[:pos]...)
+					sub = append(sub, byte(b))
+					sub = append(sub, m[pos+1:]...)
+					subs = append(subs, append(sub, ">x"...))
+					if b%8 == 0 || b < 0x30 {
+						ins := append([]byte("ab"), m[:pos]...)
+						ins = append(ins, byte(b))
+						ins = append(ins, m[pos:]...)
+						subs = append(subs, append(ins, ">x"...))
+					}
+				}
+			}
+		}
+		c.parallel(len(subs), func(i int) {
+			desc := map[string]any{"kind": "marker-byte-substitution", "hex": fmt.Sprintf("%x", subs[i])}
+			c20Check(c, subs[i], false, desc)
+			if i%5 == 0 {
+				c20Check(c, subs[i], true, desc)
+			}
+		})
+		evals += int64(len(subs) + len(subs)/5)
+		c.Run.Set("marker_byte_substitutions", int64(len(subs)))
 		c20Check(c, nil, false, map[string]any{"kind": "empty"})
 		evals++
 		c.Run.Set("token_sequences", int64(len(seqs)))
